@@ -36,6 +36,12 @@ type Scenario struct {
 	// SameTarget: every call asks for the same unit, address and quantity (the calls collide on everything but the
 	// transaction id; over RTU the frames are identical). Otherwise every call has its own target and reply length.
 	SameTarget bool `json:"same_target,omitempty"`
+	// DeviceDelayMs: the device needs that long (virtual time) to answer a request; 0 = at once. With a delay the callers
+	// that queue behind an exchange wait for real (virtual) time - longer than the client's read timeout when there are enough
+	// of them.
+	DeviceDelayMs int `json:"device_delay_ms,omitempty"`
+	// Close2: a second goroutine calls Close as well
+	Close2 bool `json:"close2,omitempty"`
 }
 
 // Event is one transport operation as seen on the wire.
@@ -92,6 +98,8 @@ type devConn struct {
 	chunks [][]byte // reply chunks waiting to be read
 	closed bool
 	rdl    time.Time
+	// readyAt: virtual instant from which the buffered reply can be read (device latency)
+	readyAt int64
 }
 
 func (w *world) ev(e Event) {
@@ -107,9 +115,21 @@ func (w *world) ev(e Event) {
 	w.log = append(w.log, e)
 }
 
+// sync is the happens-before side of a transport operation. A network connection is safe for concurrent use (net.Conn
+// says so: a real descriptor's lock orders the operations, so they observe and publish); a serial port is just an
+// io.ReadWriteCloser, nobody promises that - every operation WRITES the port's state, and two operations that the
+// client's own locking does not order are a data race in the caller's transport.
+func (c *devConn) sync(op string) {
+	if c.serial {
+		vsched.W(c, "port", "serial port "+op)
+		return
+	}
+	vsched.HBSync(c)
+}
+
 func (c *devConn) Write(p []byte) (int, error) {
 	vsched.PointObj("write", c.w) // every transport operation of the client is one object: the oracle reads the global wire order
-	vsched.HBSync(c)              // happens-before: operations on one connection observe and publish (as a real descriptor's lock does)
+	c.sync("Write")
 	if c.closed {
 		c.w.ev(Event{Conn: c.id, Op: "W", Data: append([]byte(nil), p...), Err: "closed"})
 		return 0, &net.OpError{Op: "write", Net: "dev", Err: net.ErrClosed}
@@ -122,6 +142,9 @@ func (c *devConn) Write(p []byte) (int, error) {
 	reply := c.w.dev.Handle(rq).Frame(c.w.rtu)
 	h := (len(reply) + 1) / 2
 	c.chunks = append(c.chunks, append([]byte(nil), reply[:h]...), append([]byte(nil), reply[h:]...))
+	if d := c.w.sc.DeviceDelayMs; d > 0 {
+		c.readyAt = vsched.NowNs() + int64(d)*int64(time.Millisecond)
+	}
 	return len(p), nil
 }
 
@@ -135,13 +158,21 @@ func (c *devConn) Read(p []byte) (int, error) {
 	} else {
 		dl = vsched.NowNs() + int64(time.Second)
 	}
-	vsched.PointWhenObj("read", func() bool { return len(c.chunks) > 0 || c.closed }, dl, c.w)
-	vsched.HBSync(c)
+	ready := func() bool { return (len(c.chunks) > 0 && vsched.NowNs() >= c.readyAt) || c.closed }
+	wake := dl
+	if len(c.chunks) > 0 && c.readyAt > vsched.NowNs() && c.readyAt < dl {
+		wake = c.readyAt // the reply is on its way: it becomes readable at that instant
+	}
+	vsched.PointWhenObj("read", ready, wake, c.w)
+	if !ready() && vsched.NowNs() < dl {
+		vsched.BlockLib("read", ready, dl) // woken by the reply's arrival time but something else consumed it meanwhile: wait on
+	}
+	c.sync("Read")
 	if c.closed {
 		c.w.ev(Event{Conn: c.id, Op: "R", Err: "closed"})
 		return 0, &net.OpError{Op: "read", Net: "dev", Err: net.ErrClosed}
 	}
-	if len(c.chunks) == 0 {
+	if len(c.chunks) == 0 || vsched.NowNs() < c.readyAt {
 		c.w.ev(Event{Conn: c.id, Op: "R", Err: "timeout"})
 		if c.serial {
 			return 0, nil
@@ -160,7 +191,7 @@ func (c *devConn) Read(p []byte) (int, error) {
 
 func (c *devConn) Close() error {
 	vsched.PointObj("close", c.w)
-	vsched.HBSync(c)
+	c.sync("Close")
 	c.w.ev(Event{Conn: c.id, Op: "C"})
 	if c.closed {
 		return &net.OpError{Op: "close", Net: "dev", Err: net.ErrClosed}
@@ -171,7 +202,7 @@ func (c *devConn) Close() error {
 
 func (c *devConn) Flush() error {
 	vsched.PointObj("flush", c.w)
-	vsched.HBSync(c)
+	c.sync("Flush")
 	c.w.ev(Event{Conn: c.id, Op: "F"})
 	return nil
 }
@@ -350,6 +381,9 @@ func (w *world) main() {
 	}
 	if sc.Close {
 		vsched.Spawn("closer", func() { cl.Close() }, true)
+	}
+	if sc.Close2 {
+		vsched.Spawn("closer2", func() { cl.Close() }, true)
 	}
 	if sc.Connect && netClient != nil {
 		vsched.Spawn("connector", func() { netClient.Connect(context.Background(), "dev:502") }, true)
